@@ -265,13 +265,20 @@ func init() {
 			afterClose := c.Counter("calls_after_close_observed")
 			nt := c.DistinctSet("nontrivial")
 			// nil stream
-			for _, max := range []int{0, 1, 5} {
-				r, err := libaudit.NewReassembler(max, time.Second, nil)
-				if err == nil || r != nil {
-					c.Violation("nil-stream-accepted", fmt.Sprintf("NewReassembler(%d, 1s, nil) returned (%v, %v)", max, r, err), nil)
+			for _, max := range []int{0, 1, 5, 64, 1 << 30, -1, -2, -100, math.MinInt64} {
+				for _, T := range c19Timeouts {
+					var r *libaudit.Reassembler
+					var err error
+					if p, _ := mon.Try(func() { r, err = libaudit.NewReassembler(max, T, nil) }); p != nil {
+						c.Violation("nil-stream-panic", fmt.Sprintf("NewReassembler(%d, %s, nil) panicked: %v", max, T, p), nil)
+						continue
+					}
+					if err == nil || r != nil {
+						c.Violation("nil-stream-accepted", fmt.Sprintf("NewReassembler(%d, %s, nil) returned (%v, %v)", max, T, r, err), nil)
+					}
+					c.Add("nil_stream_probes", 1)
 				}
 			}
-			c.Add("nil_stream_probes", 3)
 			// re-entrant Maintain / Close from inside the callbacks of the flushing Close
 			reN := c.Counter("reentrant_calls_during_close_flush")
 			for i, m := 0, c.Pick(2000, 200000); i < m; i++ {
